@@ -22,7 +22,10 @@ SIG_FS = ("C02:hint span outside the stored listing: a separator 0x1c-0x1f (whit
 SIG_ASYNC = "C02:decorated async def (AsyncFunctionDef missing from the body-last reordering): start > end"
 SIG_LONE = "C02:no meta/program for a program whose flat AST has a single _pos line (lone pass / import)"
 SIG_EMPTYPROG = "C02:comment-only program: ast_construction:EmptyProgramError on 0-0 while the stored source is not empty"
-SIG_POSSTR = "C02:string literal containing flat-AST-looking text with _pos= (pos_to_span ValueError)"
+SIG_POSSTR = "C02:string literal containing `_pos=`: a feature regex captures a position inside the literal (span outside the listing)"
+SIG_HINTPATH = ("C02:label added by a hint (empty path) under the name of a feature that nesting SQL queries select from "
+                "(function:, loop:, ...): derived spans with start > end")
+PREREQ = set()  # names of the tables the SQL queries of spec.md select from (filled by run)
 
 
 def parse_spans(cell):
@@ -70,6 +73,12 @@ def classify_program(stored, raw):
         return SIG_ASYNC
     if any(0x1C <= ord(ch) <= 0x1F for ch in raw):
         return SIG_FS
+    if "_pos=" in stored:
+        return SIG_POSSTR
+    for m in re.finditer(r"(?i)#\s*paroxython\s*:\s*(.*)", raw):
+        for tok in m.group(1).split():
+            if not tok.startswith(("-", "...", "…")) and tok.lstrip("+").split(":")[0].rstrip(".…") in PREREQ:
+                return SIG_HINTPATH
     return None
 
 
@@ -93,12 +102,21 @@ def stream_hint_spans(ctx, impl, drv):
         layout = H.gen_decorated(rng, base, labels=H.LABELS[:8])
         lead, trail = rng.choice([0, 0, 0, 1, 2]), rng.choice([0, 0, 0, 1, 2])
         spec = drv.call("c12.spec_decorate", lines=layout)
-        src = "\n" * lead + spec["src"] + "\n" * trail
+        blank = lambda: rng.choice(["", "", " ", "\t", "   "])  # noqa: E731
+        src = "".join(blank() + "\n" for _ in range(lead)) + spec["src"] + "".join("\n" + blank() for _ in range(trail))
+        if rng.random() < 0.25:  # a hint alone on a line outside the blank / whitespace-only end lines
+            src = ("# paroxython: outer\n" + src) if rng.random() < 0.5 else (src + "\n# paroxython: outer")
         if rng.random() < 0.1:
             ls = src.split("\n")
             ls.insert(rng.randrange(len(ls) + 1), rng.choice(["# paroxython: ", "   # paroxython:  ", "# paroxython:"]))
             src = "\n".join(ls)
         srcs.append(src)
+    # whitespace-only lines (not only empty ones) between a hint alone on a line and the code, at both ends
+    for ws in (" ", "\t", "  ", " \t ", "\x0c"):
+        for code in ("x = 1", "x = 1 # paroxython: bar", "if x:\n    y = 2 # paroxython: -bar"):
+            srcs += ["# paroxython: foo\n" + ws + "\n" + code, code + "\n" + ws + "\n# paroxython: foo",
+                     "# paroxython: foo\n" + ws + "\n" + ws + "\n" + code + "\n" + ws + "\n  # paroxython: baz\n",
+                     ws + "\n# paroxython: foo\n" + ws + "\n" + code + "\n" + ws]
     for fs in ("\x1c", "\x1f"):  # the separators str.strip() treats as white space and the regex \\s does not
         srcs += [fs + " # paroxython: foo\nx = 1 # paroxython: bar", "x = 1 # paroxython: bar\n" + fs + "# paroxython: foo",
                  fs + "x = 1 # paroxython: bar", "y\n" + fs + " # paroxython: a... ...a\nx = 1 # paroxython: bar"]
@@ -259,7 +277,7 @@ STMTS = [
     ["with open(p) as h:", "    s = h.read()"], ["@dec", "def g():", "    pass"],
     ["@dec", "async def h():", "    await k()"], ["async def k():", "    pass"],
     ["z = [i * i for i in range(10) if i % 2]"], ["t = (", "    1,", "    2,", ")"],
-    ["s = '''a", "b'''"], ["lambda q: q"], ["assert x, 'm'"], ["x = b\"it's\""], ["d = {k: v for k, v in p}"],
+    ["s = '''a", "b'''"], ["lambda q: q"], ["assert x, 'm'"], ["print(\"_pos=7:1-\")"], ["x = b\"it's\""], ["d = {k: v for k, v in p}"],
     ["def r(n):", "    if n < 2:", "        return n", "    return r(n - 1) + r(n - 2)"],
     ["global_v: int = 3"], ["del x"], ["x = y = 0"], ["a, b = b, a"],
 ]
@@ -287,7 +305,8 @@ def gen_program(rng, real_programs):
     if nb and rng.random() < 0.6:
         for _ in range(rng.randint(1, 3)):
             k = rng.random()
-            L = rng.choice(["foo", "meta/topic/fun", "flow/conditional", "bar:baz"])
+            L = rng.choice(["foo", "meta/topic/fun", "flow/conditional", "bar:baz", "bar:baz", "foo",
+                            rng.choice(["function:g", "loop:for", "if", "scope:v"])])
             if k < 0.5:
                 i = rng.choice(nb)
                 tok = f"{rng.choice(['', '+', '-'])}{L}"
@@ -350,7 +369,10 @@ def stream_tag_collect(ctx, impl, drv, real_programs):
     from paroxython.make_db import TagDatabase
 
     n = 300 if ctx.tier == "quick" else 2500
-    programs = []
+    PREREQ.update(re.findall(r"(?:FROM|JOIN) t_(\w+)", "\n".join(impl.pp.ProgramParser().queries.values())))
+    # two shapes reported on the unchanged code (findings F29, F30), always exercised
+    programs = ["x = 1\ndef f(): # paroxython: function:a\n    return x\ndef h(): # paroxython: function:b\n    yield x\n",
+                "x = 1\nprint(\"_pos=99:x\")\n"]
     while len(programs) < n:
         t = gen_program(ctx.rng, real_programs)
         if t is not None and impl.admissible(t):
